@@ -121,6 +121,19 @@ func aggregate(rs []ObligResult) []*NameResult {
 	return out
 }
 
+// allWeak: every failing instance of the obligation is marked weak (see Oblig.Weak).
+func (n *NameResult) allWeak() bool {
+	if len(n.Fails) == 0 {
+		return false
+	}
+	for _, f := range n.Fails {
+		if f.O.Weak == "" {
+			return false
+		}
+	}
+	return true
+}
+
 func hasProp(ps []string, p string) bool {
 	for _, x := range ps {
 		if x == p {
